@@ -39,11 +39,12 @@
 (* order and a draining consumer receives exactly Expected(stream), i.e.   *)
 (* the error is delivered.                                                 *)
 (*                                                                         *)
-(* Known defect carried as a tainting disjunct (DESIGN 2.4):               *)
-(*   "nilchan": Pull's `case ch := <-s.resultChCh` does not test for a     *)
-(*   closed channel; after the parent context is cancelled the parser      *)
-(*   closes resultChCh without queueing a final result, Pull may pick that *)
-(*   arm, gets ch = nil and blocks forever in `<-ch`.                      *)
+(* History: the spec used to carry the defect F-C11-1 ("nilchan": Pull's   *)
+(* `case ch := <-s.resultChCh` did not test for a closed channel, got      *)
+(* ch = nil after a parent cancellation and blocked forever) as a tainting *)
+(* disjunct.  Repaired in the repository by b58d2dd66 (`ch, ok := <-...;   *)
+(* if !ok { return nil, s.ctx.Err() }`); PullRecvClosed below transcribes  *)
+(* the repaired code and the properties hold without any exemption.        *)
 (***************************************************************************)
 EXTENDS Integers, Sequences, FiniteSets, TLC
 
@@ -116,11 +117,10 @@ VARIABLES
   \* consumer (the caller of Pull)
   cpc, cch, cres, cstate, eof, err, obs, stopped,
   \* ghosts
-  bad,              \* "none" or the name of a Go runtime failure (send on closed channel ...)
-  taint
+  bad               \* "none" or the name of a Go runtime failure (send on closed channel ...)
 
 vars == <<stream, nthreads, mode, started, ctxDone, parentCancelled, ppc, pos, pw, workerCh, rcc, rccClosed,
-          chbuf, chclosed, wpc, wwork, cpc, cch, cres, cstate, eof, err, obs, stopped, bad, taint>>
+          chbuf, chclosed, wpc, wwork, cpc, cch, cres, cstate, eof, err, obs, stopped, bad>>
 
 Workers == 1..nthreads
 Cap     == nthreads + 1
@@ -135,7 +135,7 @@ InitWith(s, n, m) ==
   /\ wpc = [w \in 1..n |-> "notstarted"] /\ wwork = [w \in 1..n |-> 0]
   /\ cpc = "idle" /\ cch = NIL /\ cres = "none" /\ cstate = "active"
   /\ eof = FALSE /\ err = "none" /\ obs = <<>> /\ stopped = FALSE
-  /\ bad = "none" /\ taint = {}
+  /\ bad = "none"
 
 Init == \E s \in Streams, n \in Threads, m \in Modes : InitWith(s, n, m)
 
@@ -159,7 +159,7 @@ ParserRead ==
               [] stream[pos] = "PT" -> ppc' \in {"ctlfinal_err", "ctlfinal_end"}
               [] OTHER              -> ppc' = "getworker"
   /\ UNCHANGED <<stream, nthreads, mode, started, ctxDone, parentCancelled, pos, pw, workerCh, rcc, rccClosed, chbuf, chclosed,
-                 wpc, wwork, cpc, cch, cres, cstate, eof, err, obs, stopped, bad, taint>>
+                 wpc, wwork, cpc, cch, cres, cstate, eof, err, obs, stopped, bad>>
 
 CtlResult == CASE ppc = "ctl" -> "c" [] ppc = "ctlfinal_err" -> "err" [] OTHER -> "end"
 CtlId     == IF pos > Len(stream) THEN Len(stream) + 1 ELSE pos
@@ -172,7 +172,7 @@ ParserCtlSend ==
   /\ rcc' = Append(rcc, CtlId)
   /\ IF ppc = "ctl" THEN ppc' = "read" /\ pos' = pos + 1 ELSE ppc' = "closing" /\ pos' = pos
   /\ UNCHANGED <<stream, nthreads, mode, started, ctxDone, parentCancelled, pw, workerCh, rccClosed, chclosed,
-                 wpc, wwork, cpc, cch, cres, cstate, eof, err, obs, stopped, taint>>
+                 wpc, wwork, cpc, cch, cres, cstate, eof, err, obs, stopped>>
 
 \* sendControl: ... case <-s.ctx.Done(): return false   (the caller ignores the result for control frames)
 ParserCtlCancel ==
@@ -180,7 +180,7 @@ ParserCtlCancel ==
   /\ ctxDone
   /\ IF ppc = "ctl" THEN ppc' = "read" /\ pos' = pos + 1 ELSE ppc' = "closing" /\ pos' = pos
   /\ UNCHANGED <<stream, nthreads, mode, started, ctxDone, parentCancelled, pw, workerCh, rcc, rccClosed, chbuf, chclosed,
-                 wpc, wwork, cpc, cch, cres, cstate, eof, err, obs, stopped, bad, taint>>
+                 wpc, wwork, cpc, cch, cres, cstate, eof, err, obs, stopped, bad>>
 
 \* select { case worker := <-s.workerCh: ... case <-s.ctx.Done(): return }
 ParserGetWorker ==
@@ -188,7 +188,7 @@ ParserGetWorker ==
   /\ pw' = Head(workerCh) /\ workerCh' = Tail(workerCh)
   /\ ppc' = "enqueue"
   /\ UNCHANGED <<stream, nthreads, mode, started, ctxDone, parentCancelled, pos, rcc, rccClosed, chbuf, chclosed,
-                 wpc, wwork, cpc, cch, cres, cstate, eof, err, obs, stopped, bad, taint>>
+                 wpc, wwork, cpc, cch, cres, cstate, eof, err, obs, stopped, bad>>
 
 \* select { case s.resultChCh <- w.resultCh: ... case <-s.ctx.Done(): return }
 ParserEnqueue ==
@@ -196,13 +196,13 @@ ParserEnqueue ==
   /\ rcc' = Append(rcc, pos)
   /\ ppc' = "dispatch"
   /\ UNCHANGED <<stream, nthreads, mode, started, ctxDone, parentCancelled, pos, pw, workerCh, rccClosed, chbuf, chclosed,
-                 wpc, wwork, cpc, cch, cres, cstate, eof, err, obs, stopped, bad, taint>>
+                 wpc, wwork, cpc, cch, cres, cstate, eof, err, obs, stopped, bad>>
 
 ParserCancelReturn ==        \* the ctx.Done() arms of the first two selects
   /\ ppc \in {"getworker", "enqueue"} /\ ctxDone
   /\ ppc' = "closing" /\ pw' = 0
   /\ UNCHANGED <<stream, nthreads, mode, started, ctxDone, parentCancelled, pos, workerCh, rcc, rccClosed, chbuf, chclosed,
-                 wpc, wwork, cpc, cch, cres, cstate, eof, err, obs, stopped, bad, taint>>
+                 wpc, wwork, cpc, cch, cres, cstate, eof, err, obs, stopped, bad>>
 
 \* select { case worker.workCh <- w: (rendezvous with the worker's receive) ... }
 ParserDispatch ==
@@ -211,7 +211,7 @@ ParserDispatch ==
   /\ wwork' = [wwork EXCEPT ![pw] = pos]
   /\ ppc' = "hook"
   /\ UNCHANGED <<stream, nthreads, mode, started, ctxDone, parentCancelled, pos, pw, workerCh, rcc, rccClosed, chbuf, chclosed,
-                 cpc, cch, cres, cstate, eof, err, obs, stopped, bad, taint>>
+                 cpc, cch, cres, cstate, eof, err, obs, stopped, bad>>
 
 \* ... case <-s.ctx.Done(): close(w.resultCh); return
 ParserDispatchCancel ==
@@ -219,21 +219,21 @@ ParserDispatchCancel ==
   /\ CloseCh(pos)
   /\ ppc' = "closing" /\ pw' = 0
   /\ UNCHANGED <<stream, nthreads, mode, started, ctxDone, parentCancelled, pos, workerCh, rcc, rccClosed, chbuf,
-                 wpc, wwork, cpc, cch, cres, cstate, eof, err, obs, stopped, bad, taint>>
+                 wpc, wwork, cpc, cch, cres, cstate, eof, err, obs, stopped, bad>>
 
 \* verif.At("zngio.dispatch", ...) -- the logged point after the workCh send
 ParserHook ==
   /\ ppc = "hook"
   /\ ppc' = "read" /\ pos' = pos + 1 /\ pw' = 0
   /\ UNCHANGED <<stream, nthreads, mode, started, ctxDone, parentCancelled, workerCh, rcc, rccClosed, chbuf, chclosed,
-                 wpc, wwork, cpc, cch, cres, cstate, eof, err, obs, stopped, bad, taint>>
+                 wpc, wwork, cpc, cch, cres, cstate, eof, err, obs, stopped, bad>>
 
 \* defer close(s.resultChCh)
 ParserClose ==
   /\ ppc = "closing"
   /\ rccClosed' = TRUE /\ ppc' = "done"
   /\ UNCHANGED <<stream, nthreads, mode, started, ctxDone, parentCancelled, pos, pw, workerCh, rcc, chbuf, chclosed,
-                 wpc, wwork, cpc, cch, cres, cstate, eof, err, obs, stopped, bad, taint>>
+                 wpc, wwork, cpc, cch, cres, cstate, eof, err, obs, stopped, bad>>
 
 \* ----------------------------------------------------------------- workers
 \* select { case workerCh <- w: case <-w.ctx.Done(): return }
@@ -246,14 +246,14 @@ WorkerReady(w) ==
   /\ workerCh' = Append(workerCh, w)
   /\ wpc' = [wpc EXCEPT ![w] = "waitwork"]
   /\ UNCHANGED <<stream, nthreads, mode, started, ctxDone, parentCancelled, ppc, pos, pw, rcc, rccClosed, chbuf, chclosed,
-                 wwork, cpc, cch, cres, cstate, eof, err, obs, stopped, bad, taint>>
+                 wwork, cpc, cch, cres, cstate, eof, err, obs, stopped, bad>>
 
 WorkerCancel(w) ==           \* the ctx.Done() arm of either select in worker.run
   /\ wpc[w] \in {"idle", "waitwork"} /\ ctxDone
   /\ wpc[w] = "idle" => Lowest(w)
   /\ wpc' = [wpc EXCEPT ![w] = "done"]
   /\ UNCHANGED <<stream, nthreads, mode, started, ctxDone, parentCancelled, ppc, pos, pw, workerCh, rcc, rccClosed, chbuf, chclosed,
-                 wwork, cpc, cch, cres, cstate, eof, err, obs, stopped, bad, taint>>
+                 wwork, cpc, cch, cres, cstate, eof, err, obs, stopped, bad>>
 
 \* frame.decompress() fails: `work.resultCh <- op.Result{Err: err}; continue` (no close, no hook)
 WorkerFailA(w) ==
@@ -261,14 +261,14 @@ WorkerFailA(w) ==
   /\ SendOn(wwork[w], "err")
   /\ wpc' = [wpc EXCEPT ![w] = "idle"] /\ wwork' = [wwork EXCEPT ![w] = 0]
   /\ UNCHANGED <<stream, nthreads, mode, started, ctxDone, parentCancelled, ppc, pos, pw, workerCh, rcc, rccClosed, chclosed,
-                 cpc, cch, cres, cstate, eof, err, obs, stopped, taint>>
+                 cpc, cch, cres, cstate, eof, err, obs, stopped>>
 
 \* batch, err := w.scanBatch(...); verif.At("zngio.worker.done", ...)
 WorkerScan(w) ==
   /\ wpc[w] = "gotwork" /\ stream[wwork[w]] # "A"
   /\ wpc' = [wpc EXCEPT ![w] = "scanned"]
   /\ UNCHANGED <<stream, nthreads, mode, started, ctxDone, parentCancelled, ppc, pos, pw, workerCh, rcc, rccClosed, chbuf, chclosed,
-                 wwork, cpc, cch, cres, cstate, eof, err, obs, stopped, bad, taint>>
+                 wwork, cpc, cch, cres, cstate, eof, err, obs, stopped, bad>>
 
 \* if batch != nil || err != nil { work.resultCh <- ... }; close(work.resultCh)
 WorkerSend(w) ==
@@ -279,7 +279,7 @@ WorkerSend(w) ==
        /\ chclosed' = [chclosed EXCEPT ![id] = TRUE]
   /\ wpc' = [wpc EXCEPT ![w] = "idle"] /\ wwork' = [wwork EXCEPT ![w] = 0]
   /\ UNCHANGED <<stream, nthreads, mode, started, ctxDone, parentCancelled, ppc, pos, pw, workerCh, rcc, rccClosed,
-                 cpc, cch, cres, cstate, eof, err, obs, stopped, taint>>
+                 cpc, cch, cres, cstate, eof, err, obs, stopped>>
 
 \* ---------------------------------------------------------------- consumer
 Start ==   \* s.once.Do(s.start)
@@ -295,7 +295,7 @@ CallPull ==
        THEN cpc' = "ret" /\ cres' = IF err # "none" THEN err ELSE "end"
        ELSE cpc' = "select" /\ cres' = cres
   /\ UNCHANGED <<stream, nthreads, mode, ctxDone, parentCancelled, pos, pw, workerCh, rcc, rccClosed, chbuf, chclosed,
-                 wwork, cch, cstate, eof, err, obs, stopped, bad, taint>>
+                 wwork, cch, cstate, eof, err, obs, stopped, bad>>
 
 \* Pull(true): s.cancel(); for range s.resultChCh {}; s.eof = true
 CallPullDone ==
@@ -306,20 +306,20 @@ CallPullDone ==
   /\ cpc' = "draining"
   /\ stopped' = (stopped \/ cstate = "active")
   /\ UNCHANGED <<stream, nthreads, mode, parentCancelled, pos, pw, workerCh, rcc, rccClosed, chbuf, chclosed,
-                 wwork, cch, cres, cstate, eof, err, obs, bad, taint>>
+                 wwork, cch, cres, cstate, eof, err, obs, bad>>
 
 DrainOne ==
   /\ cpc = "draining" /\ rcc # <<>>
   /\ rcc' = Tail(rcc)
   /\ UNCHANGED <<stream, nthreads, mode, started, ctxDone, parentCancelled, ppc, pos, pw, workerCh, rccClosed, chbuf, chclosed,
-                 wpc, wwork, cpc, cch, cres, cstate, eof, err, obs, stopped, bad, taint>>
+                 wpc, wwork, cpc, cch, cres, cstate, eof, err, obs, stopped, bad>>
 
 DrainEnd ==
   /\ cpc = "draining" /\ rcc = <<>> /\ rccClosed
   /\ eof' = TRUE
   /\ cpc' = "idle" /\ cstate' = "closed"
   /\ UNCHANGED <<stream, nthreads, mode, started, ctxDone, parentCancelled, ppc, pos, pw, workerCh, rcc, rccClosed, chbuf, chclosed,
-                 wpc, wwork, cch, cres, err, obs, stopped, bad, taint>>
+                 wpc, wwork, cch, cres, err, obs, stopped, bad>>
 
 \* select { case ch := <-s.resultChCh: ...
 PullRecv ==
@@ -327,22 +327,22 @@ PullRecv ==
   /\ cch' = Head(rcc) /\ rcc' = Tail(rcc)
   /\ cpc' = "recv"
   /\ UNCHANGED <<stream, nthreads, mode, started, ctxDone, parentCancelled, ppc, pos, pw, workerCh, rccClosed, chbuf, chclosed,
-                 wpc, wwork, cres, cstate, eof, err, obs, stopped, bad, taint>>
+                 wpc, wwork, cres, cstate, eof, err, obs, stopped, bad>>
 
-\* ... the same arm on a closed, drained resultChCh yields ch = nil (known defect "nilchan")
+\* ... the same arm on a closed, drained resultChCh: `ch, ok := <-s.resultChCh; if !ok { return nil, s.ctx.Err() }`
+\* (s.ctx.Err() is nil if the context is not done; ClosedOnlyAfterCancel says that cannot happen here)
 PullRecvClosed ==
   /\ cpc = "select" /\ rcc = <<>> /\ rccClosed
-  /\ cch' = NIL /\ cpc' = "recv"
-  /\ taint' = taint \cup {"nilchan"}
+  /\ cpc' = "ret" /\ cres' = (IF ctxDone THEN "ctxerr" ELSE "end")
   /\ UNCHANGED <<stream, nthreads, mode, started, ctxDone, parentCancelled, ppc, pos, pw, workerCh, rcc, rccClosed, chbuf, chclosed,
-                 wpc, wwork, cres, cstate, eof, err, obs, stopped, bad>>
+                 wpc, wwork, cch, cstate, eof, err, obs, stopped, bad>>
 
 \* ... case <-s.ctx.Done(): return nil, s.ctx.Err() }
 PullCtxDone ==
   /\ cpc = "select" /\ ctxDone
   /\ cpc' = "ret" /\ cres' = "ctxerr"
   /\ UNCHANGED <<stream, nthreads, mode, started, ctxDone, parentCancelled, ppc, pos, pw, workerCh, rcc, rccClosed, chbuf, chclosed,
-                 wpc, wwork, cch, cstate, eof, err, obs, stopped, bad, taint>>
+                 wpc, wwork, cch, cstate, eof, err, obs, stopped, bad>>
 
 \* result, ok := <-ch  with ok = true ; verif.At("zngio.deliver", ch, true); eof/err latch and s.cancel()
 PullGot ==
@@ -355,14 +355,14 @@ PullGot ==
             ELSE eof' = eof /\ err' = err /\ ctxDone' = ctxDone
   /\ cpc' = "ret" /\ cch' = NIL
   /\ UNCHANGED <<stream, nthreads, mode, started, parentCancelled, ppc, pos, pw, workerCh, rcc, rccClosed, chclosed,
-                 wpc, wwork, cstate, obs, stopped, bad, taint>>
+                 wpc, wwork, cstate, obs, stopped, bad>>
 
 \* ok = false: closed without a result -> continue with the select
 PullClosedEmpty ==
   /\ cpc = "recv" /\ cch # NIL /\ chbuf[cch] = <<>> /\ chclosed[cch]
   /\ cpc' = "select" /\ cch' = NIL
   /\ UNCHANGED <<stream, nthreads, mode, started, ctxDone, parentCancelled, ppc, pos, pw, workerCh, rcc, rccClosed, chbuf, chclosed,
-                 wpc, wwork, cres, cstate, eof, err, obs, stopped, bad, taint>>
+                 wpc, wwork, cres, cstate, eof, err, obs, stopped, bad>>
 
 \* Pull(false) returns cres to the caller
 PullReturn ==
@@ -372,7 +372,7 @@ PullReturn ==
   /\ cstate' = IF cres \in {"err", "end", "ctxerr"} THEN "ended" ELSE cstate
   /\ cres' = "none"
   /\ UNCHANGED <<stream, nthreads, mode, started, ctxDone, parentCancelled, ppc, pos, pw, workerCh, rcc, rccClosed, chbuf, chclosed,
-                 wpc, wwork, cch, eof, err, stopped, bad, taint>>
+                 wpc, wwork, cch, eof, err, stopped, bad>>
 
 \* The consumer is finished: it drained to the end / an error (with or without Close), it
 \* closed the scanner, or its context was cancelled and it walks away.
@@ -381,14 +381,14 @@ Finish ==
   /\ cstate \in {"ended", "closed"} \/ (cstate = "active" /\ parentCancelled)
   /\ cstate' = "finished"
   /\ UNCHANGED <<stream, nthreads, mode, started, ctxDone, parentCancelled, ppc, pos, pw, workerCh, rcc, rccClosed, chbuf, chclosed,
-                 wpc, wwork, cpc, cch, cres, eof, err, obs, stopped, bad, taint>>
+                 wpc, wwork, cpc, cch, cres, eof, err, obs, stopped, bad>>
 
 \* ------------------------------------------------------------ environment
 ParentCancel ==
   /\ mode = "cancel" /\ ~parentCancelled /\ cstate # "finished"
   /\ parentCancelled' = TRUE /\ ctxDone' = TRUE
   /\ UNCHANGED <<stream, nthreads, mode, started, ppc, pos, pw, workerCh, rcc, rccClosed, chbuf, chclosed,
-                 wpc, wwork, cpc, cch, cres, cstate, eof, err, obs, stopped, bad, taint>>
+                 wpc, wwork, cpc, cch, cres, cstate, eof, err, obs, stopped, bad>>
 
 \* ------------------------------------------------------------- next-state
 ParserStep == \/ ParserRead \/ ParserCtlSend \/ ParserCtlCancel \/ ParserGetWorker \/ ParserEnqueue
@@ -403,10 +403,7 @@ GoroutinesDone ==
 
 Terminated == GoroutinesDone /\ cstate = "finished"
 
-\* the consumer is stuck in `<-ch` on the nil channel (only reachable through the tainting disjunct)
-StuckOnNil == cpc = "recv" /\ cch = NIL
-
-Done == (Terminated \/ (StuckOnNil /\ GoroutinesDone)) /\ UNCHANGED vars
+Done == Terminated /\ UNCHANGED vars
 
 Next == ParserStep \/ (\E w \in Workers : WorkerStep(w)) \/ ConsumerStep \/ ParentCancel \/ Done
 
@@ -443,18 +440,20 @@ InOrder == ~parentCancelled => \E e \in Expected(stream) : IsPrefix(Core(obs), e
 \* a consumer that drains (never stops early, context never cancelled) receives exactly the
 \* expected sequence -- in particular the error of a faulted frame is delivered, at its position
 ErrorDelivered ==
-  (cstate \in {"ended", "closed", "finished"} /\ ~stopped /\ ~parentCancelled /\ taint = {})
+  (cstate \in {"ended", "closed", "finished"} /\ ~stopped /\ ~parentCancelled)
      => obs \in Expected(stream)
 
-\* the nil-channel arm is reachable only after a parent cancellation
-TaintOnlyAfterCancel == taint # {} => parentCancelled
+\* the closed-channel arm of Pull is reachable only once the context is done (so it returns ctx.Err() # nil)
+ClosedOnlyAfterCancel == (cpc = "select" /\ rcc = <<>> /\ rccClosed) => ctxDone
+\* Pull never receives from the nil channel
+NeverNilChannel == cpc = "recv" => cch # NIL
 
 \* when everything is over the parser has closed resultChCh
 ClosedAtEnd == (GoroutinesDone /\ started) => rccClosed
 
 \* every terminal state is a proper termination (TLC deadlock checking is on: Done is the only
 \* stuttering step, so any other state without successor is reported as deadlock)
-Termination == <>[](Terminated \/ (taint # {} /\ GoroutinesDone))
+Termination == <>[]Terminated
 \* parser and workers always exit, whatever the consumer does, once it is finished / stuck
 GoroutinesExit == <>[]GoroutinesDone
 
